@@ -6,7 +6,7 @@ from props.proxycommon import run_proxy_property, replay_file, RULE, ASSUME
 def fams(tier):
     # every family is judged for every property of the Proxy specification (a mismatch is reported by the
     # property it concerns, whichever family shows it)
-    return proxyfam.flight_families() + proxyfam.policy_families() + proxyfam.reval_families() + proxyfam.retry_families()
+    return proxyfam.flight_families() + proxyfam.policy_families() + proxyfam.reval_families() + proxyfam.retry_families() + proxyfam.refusal_families()
 
 
 def run(tier, seed):
